@@ -5,6 +5,9 @@ V = os.path.dirname(os.path.dirname(os.path.abspath(__file__)))
 sys.path.insert(0, os.path.join(V, 'tools'))
 from propcfg import PROPS
 from manifest_texts import TEXTS, NOT_APPLICABLE
+KGEN_STMT = (' K-gen, statement level: the Go functions of the policy layer listed in DESIGN.md 11.4 are rewritten statement by statement into Lean do blocks '
+             'on every run (Netpol/Gen/Procs.lean, tools/goextract/procs.go) and Netpol/Tie/Procs proves the model functions equal to them; a changed statement order or '
+             'switch case breaks that proof obligation before any case is generated. The translator and its atom tables are trusted.')
 props = [json.loads(l) for l in open(os.path.join(V, 'properties.jsonl'))]
 checks = []
 for p in props:
@@ -20,7 +23,7 @@ for p in props:
         'replay_cmd_template': './check %s --replay {path}' % pid,
         'engine': 'lean4-model+kdiff',
         'level_claimed': {'category': 'proof', 'text': t['text'], 'design_ref': t.get('ref', 'DESIGN.md section 6, ' + pid)},
-        'level_note': t['note'],
+        'level_note': t['note'] + (KGEN_STMT if 'Netpol.Tie.Procs' in PROPS[pid].get('lean', []) else ''),
         'technique': t.get('technique', 'Lean 4 proof over a hand-written model + differential correspondence check (K-diff) + implementation-level oracle (P)'),
     })
 claimed = {c['property_id'] for c in checks}
